@@ -190,12 +190,45 @@ def check_gray_array(ctx, cell, case):
     ctx.check(U.gray_array_to_binary(arg).tolist() == [U.gray_to_binary(n) for n in ns], "C14.f_array_g2b", cell, case, checker="c14:check_gray_array")
 
 
+def _g2b_ref(g):
+    b = 0
+    while g:
+        b ^= g
+        g >>= 1
+    return b
+
+
+def check_gray_array_values(ctx, cell, case):
+    """array forms (list / int64 tensor) on arbitrary integers < 2^60, against n ^ (n >> 1) and its inverse computed on Python ints."""
+    import torch
+    U = _utils()
+    ns = [int(v) for v in case["ns"]]
+    arg = ns if case["form"] == "list" else torch.tensor(ns, dtype=torch.int64)
+    cell = cell or {"util": "gray_array", "form": case["form"], "range": "generated"}
+    ok, g = ctx.call(lambda: U.binary_array_to_gray(arg), "C14.f_array_raises", cell, case, checker="c14:check_gray_array_values")
+    if ok:
+        ctx.ev(len(ns))
+        ctx.check([int(v) for v in g.tolist()] == [v ^ (v >> 1) for v in ns], "C14.f_array_b2g", cell, case, None, None, "binary_array_to_gray differs elementwise from n XOR (n >> 1)", "c14:check_gray_array_values")
+    ok, b = ctx.call(lambda: U.gray_array_to_binary(arg), "C14.f_array_raises", cell, case, checker="c14:check_gray_array_values")
+    if ok:
+        ctx.ev(len(ns))
+        ctx.check([int(v) for v in b.tolist()] == [_g2b_ref(v) for v in ns], "C14.f_array_g2b", cell, case, None, None, "gray_array_to_binary differs elementwise from the inverse Gray map", "c14:check_gray_array_values")
+
+
 def unit_gray_generated(ctx, n):
+    seen = []
+
     def f(x):
         check_gray(ctx, None, {"n": x})
         ctx.cls("gray_generated")
+        if x not in (512, 1022, 1023, 1365, 1638):  # the inputs of the recorded KF-C14-GRAY-1023 finding are reported by the scalar clause
+            seen.append(x)
     draw_cases(st.one_of(st.integers(0, 2 ** 60), st.integers(0, 60).map(lambda k: 2 ** k), st.integers(1, 60).map(lambda k: 2 ** k - 1),
                          st.integers(0, 2 ** 20)), n, ctx.seed * 31 + 5, f)
+    for i in range(0, len(seen), 64):
+        for form in ("list", "tensor"):
+            check_gray_array_values(ctx, None, {"ns": seen[i:i + 64], "form": form})
+            ctx.nontrivial("gray_array_generated", form, i)
     U = _utils()
     for bad in (-1, -5):
         c = {"util": "gray", "n": "negative"}
